@@ -483,6 +483,18 @@ def nodeStart (c : Ctx) (s : St) (obs : List Obs) (d : DagRef) (n : Node) (force
     cbThen c s (obs ++ [.nstart n]) (fun j => .node d n force (.cbStart j inv) :: below) (c.P.cbYield .nstart n)
       (fun s obs => nodeBegin c s obs d n force below inv)
 
+/-- the wait predicate of `_run_oneof` for candidate `cand` with sub-DAG `sub` (manager.py 555–567) -/
+def oneofDone (s : St) (cand : Node) (sub : DagRef) : Bool :=
+  hasError s sub || (s.exists cand && !(s.get cand).isRecur)
+
+/-- `_run_oneof`: the candidate succeeded — copy its result to the synthetic node, wake everybody (manager.py 568–577) -/
+def oneofWin (c : Ctx) (s : St) (obs : List Obs) (head cand : Node) (below : List Frame) : Out :=
+  let s := s.setRes head (s.getHid cand)
+  let s := notify s (.node head)
+  let s := notifyAll s ((c.P.g.desc1 head).map Key.node)
+  let s := notify s .run
+  retTo c s obs below .none
+
 /-- `_run_oneof`: try the remaining candidates (manager.py 542–586) -/
 def oneofTry (c : Ctx) (d : DagRef) (head : Node) (below : List Frame) : St → List Obs → List Node → Out
   | s, obs, [] =>
@@ -499,46 +511,42 @@ def oneofTry (c : Ctx) (d : DagRef) (head : Node) (below : List Frame) : St → 
     match reducedRef c.P s c.P.g.input cand false true true with
     | none => raiseOut c s obs below (.exc ⟨"Other:NodeNotFound", 0, 0, 0⟩)
     | some sub =>
-      let (s, tid) := spawn s [.dagInit sub] .dag
-      let obs := obs ++ [.spawn tid .dag]
-      if hasError s sub || (s.exists cand && !(s.get cand).isRecur) then
-        if !hasError s sub then
-          let s := s.setRes head (s.getHid cand)
-          let s := notify s (.node head)
-          let s := notifyAll s ((c.P.g.desc1 head).map Key.node)
-          let s := notify s .run
-          retTo c s obs below .none
-        else oneofTry c d head below s obs rest
+      let obs := obs ++ [.spawn s.tasks.length .dag]
+      let s := (spawn s [.dagInit sub] .dag).1
+      if oneofDone s cand sub then
+        if hasError s sub then oneofTry c d head below s obs rest
+        else oneofWin c s obs head cand below
       else block c s obs (.oneofWait d head cand rest sub :: below) (.cond (.node cand))
 
 /-- `_run_oneof` woken while waiting for candidate `cand` -/
 def oneofWake (c : Ctx) (s : St) (obs : List Obs) (d : DagRef) (head cand : Node) (rest : List Node) (sub : DagRef)
     (below : List Frame) : Out :=
-  if hasError s sub || (s.exists cand && !(s.get cand).isRecur) then
-    if !hasError s sub then
-      let s := s.setRes head (s.getHid cand)
-      let s := notify s (.node head)
-      let s := notifyAll s ((c.P.g.desc1 head).map Key.node)
-      let s := notify s .run
-      retTo c s obs below .none
-    else oneofTry c d head below s obs rest
+  if oneofDone s cand sub then
+    if hasError s sub then oneofTry c d head below s obs rest
+    else oneofWin c s obs head cand below
   else block c s obs (.oneofWait d head cand rest sub :: below) (.cond (.node cand))
+
+/-- `_add_case_result`: the stored (visible) result of the decision node of switch node `n` -/
+def switchLabel (P : Program) (s : St) (n : Node) : Val :=
+  ((P.g.edges.filter (fun e => e.v == n)).filter (·.isSwitch)).foldl (fun _ e => s.get e.u) .none
+
+/-- `_add_case_result`: `branch_nodes`, label ↦ case node (later edges win, as in the dict) -/
+def switchCases (P : Program) (n : Node) : List (Label × Node) :=
+  (P.g.edges.filter (fun e => e.v == n)).filterMap fun e => if e.isSwitch then none else e.case.map (·, e.u)
+
+/-- `branch_nodes[selected_branch_label]`; `none` = KeyError -/
+def switchSelect (P : Program) (s : St) (n : Node) : Option (Label × Node) :=
+  match switchLabel P s n with
+  | .str l => ((switchCases P n).filter (·.1 == l)).getLast?
+  | _ => none
 
 /-- `_run_switch` entry (manager.py _add_case_result + reduced dag) -/
 def switchStart (c : Ctx) (s : St) (obs : List Obs) (d : DagRef) (n : Node) (below : List Frame) : Out :=
-  let g := c.P.g
-  let ins := g.edges.filter (fun e => e.v == n)
-  let label : Val := (ins.filter (·.isSwitch)).foldl (fun _ e => s.get e.u) .none
-  let cases : List (Label × Node) := ins.filterMap fun e => if e.isSwitch then none else e.case.map (·, e.u)
-  let sel : Option (Label × Node) := match label with
-    | .str l => (cases.filter (·.1 == l)).getLast?
-    | _ => none
-  match sel with
+  match switchSelect c.P s n with
   | none => raiseOut c (notify s .run) obs below (.exc ⟨"SwitchNoCase", n, 0, 0⟩)
   | some (l, cn) =>
-    let s := s.setSw n (l, cn)
-    let s := openCand s d.isOneof cn
-    match reducedRef c.P s g.input cn false d.isOneof false with
+    let s := openCand (s.setSw n (l, cn)) d.isOneof cn
+    match reducedRef c.P s c.P.g.input cn false d.isOneof false with
     | none => raiseOut c s obs below (.exc ⟨"Other:NodeNotFound", 0, 0, 0⟩)
     | some sub => dagInit c s obs sub (.switchRet d n :: below)
 
